@@ -284,7 +284,10 @@ def main(argv):
                                      'catalogue of type shapes / templates is the structural bound (DESIGN.md 3.3)'],
             wall_s=round(wall, 2), violations=len(new_violations))
         os.makedirs(os.path.join(ROOT, 'evidence'), exist_ok=True)
-        with open(os.path.join(ROOT, 'evidence', '%s.json' % prop), 'w') as f:
+        # a run restricted with --only is a development aid: it must not replace the evidence of a full run
+        evpath = (os.path.join(ROOT, 'evidence', '%s.json' % prop) if not only
+                  else os.path.join(tempfile.gettempdir(), 'evidence_partial_%s.json' % prop))
+        with open(evpath, 'w') as f:
             json.dump(evidence, f, indent=1, sort_keys=True)
         print('SUMMARY property=%s tier=%s harnesses=%d discharged=%d inconclusive=%d errors=%d violations=%d '
               'known=%d paths=%d z3_queries=%d solver_s=%.1f wall=%.0fs' % (
